@@ -73,6 +73,8 @@ class WindowMonitor(Monitor):
                 bad = ("newer_than", a.newer_than(b), d > 0)
             elif abs(d) <= 32767 and d != 0 and ((a > b) != (d > 0) or (a < b) != (d < 0)):
                 bad = ("lt/gt", (a > b, a < b), d)
+            elif abs(d) <= 32767 and ((a >= b) != (d >= 0) or (a <= b) != (d <= 0)):
+                bad = ("le/ge", (a >= b, a <= b), d)
             elif int(a + 1) != R.ring_add(ia, 1) or int(a - 1) != R.ring_add(ia, -1) or int(a + 1) == 0 or int(a - 1) == 0:
                 bad = ("+/-1", (int(a + 1), int(a - 1)), (R.ring_add(ia, 1), R.ring_add(ia, -1)))
             elif 0 < abs(d) < 1000 and int(b + d) != ia:
@@ -89,6 +91,10 @@ class WindowMonitor(Monitor):
                     return orig(bf, seqnum)          # a BitField not created empty by the protocol (not ours)
                 model = mon.models[k] = R.WindowModel(bf.nbits)
                 mon._refs.append(bf)
+                # nothing was received yet: nothing may be reported as contained (ring edges included)
+                for probe in (int(seqnum), 1, 65535, 32768):
+                    if bf.contains(SeqNum(probe)):
+                        w.violation("contains_true_on_empty_window", {"nbits": bf.nbits, "seq": probe}, key="seq=%d" % probe)
                 if bf.nbits == 32:
                     mon.shadows[k] = [(BF(wd), R.WindowModel(wd)) for wd in WIDTHS]
             mon.inserts += 1
